@@ -299,6 +299,35 @@ func (pc *PredCompiler) CompileIn(f *FuncInfo, x ast.Expr) (*BExpr, error) {
 	return pc.compile(env, x, 0)
 }
 
+// TermIn renders the operand x of function f as the term name CompileIn would use for it
+// (with Sticky set, local variables keep their numbers across calls).
+func (pc *PredCompiler) TermIn(f *FuncInfo, x ast.Expr) (string, error) {
+	env := &predEnv{info: f.Info(), bind: map[types.Object]string{}, fn: f}
+	root := f.Root()
+	if root.Decl != nil {
+		if root.Decl.Recv != nil && len(root.Decl.Recv.List) > 0 {
+			for _, nm := range root.Decl.Recv.List[0].Names {
+				env.bind[f.Info().ObjectOf(nm)] = "$recv"
+			}
+		}
+		k := 0
+		for _, fld := range root.Decl.Type.Params.List {
+			for _, nm := range fld.Names {
+				env.bind[f.Info().ObjectOf(nm)] = fmt.Sprintf("$%d", k)
+				k++
+			}
+			if len(fld.Names) == 0 {
+				k++
+			}
+		}
+	}
+	if !pc.Sticky || pc.locals == nil {
+		pc.locals = map[types.Object]string{}
+		pc.nLocal = 0
+	}
+	return pc.term(env, x)
+}
+
 // ReturnPredicate returns the single returned boolean expression of a function (error when the
 // function is not of the form `return <expr>`, possibly preceded by simple local definitions).
 func (pc *PredCompiler) ReturnPredicate(f *FuncInfo) (ast.Expr, error) {
